@@ -545,11 +545,9 @@ def guard_repair_layout(doc: dict, layout: tuple) -> bool:   # F01f: add_import'
 # conjunct indices (Coq bit = index+1): 0 c_parses, 1 c_closed, 2 c_acyclic, 3 c_no_str_or, 4 c_no_shadow,
 #                                       5 c_no_ancestor_names, 6 c_paths, 7 c_static
 # fixed in /repo (their corpus witnesses stay and must now import cleanly): F01e 0981866, F20a 4164990;
-# fix wave: F01b 270aa99, F01c a43f53c, F01g 7041aaa, F01f f12b1ce, F06d 133c12b
+# fix wave: F01b 270aa99, F01c a43f53c, F01g 7041aaa, F01f f12b1ce, F06d 133c12b, F13b aad1e7d, F04c bd888c2
 FINDINGS: dict[str, tuple] = {
     "F01a": (lambda c, m, f: c == "ImportError" and "partially initialized module" in m and "/models/" in m, 2, guard_ref_cycle),
-    "F13b": (lambda c, m, f: c == "SyntaxError" and "duplicate argument" in m and f.endswith("mocks/mock_client.py"), 0, guard_case_variant_tags),
-    "F04c": (lambda c, m, f: c == "SyntaxError" and "duplicate argument" in m and "/endpoints/" in f, 0, guard_duplicate_param),
     "F01i": (lambda c, m, f: c == "ImportError" and "partially initialized module" in m and "/models/" in m, 2, guard_inline_name_collision),
     "F01j": (lambda c, m, f: c == "ModuleNotFoundError" and re.search(r"No module named '[\w.]*\.models\.\w+'", m) is not None and "/models/" in f, 1, guard_discriminator_ref_property),
     "F20e": (lambda c, m, f: c == "ValueError" and "_sunder_ names" in m, 7, guard_sunder_enum_value),
